@@ -12,13 +12,13 @@ from bubus.helpers import retry  # noqa: E402
 
 LEVEL = 'model_checking'
 RULE = ('retries in {0,1,2,3} x wait in {0, 0.5} x backoff_factor in {1, 2, 0.5, 0 (decaying / vanishing waits)} x timeout 1 s x retry_on in {None, (), (Listed,), (Listed, TimeoutError)}; at every attempt the wrapped function asks '
-        'the explorer for its outcome in {ok, slow ok (0.7 x timeout), Listed error, Unlisted error, overrun (sleeps past the timeout), overrun answered by an Unlisted error raised at the cut-off, caller cancelled during the attempt, Listed error then caller cancelled during the '
+        'the explorer for its outcome in {ok, slow ok (0.7 x timeout), Listed error, an error of a subclass of the listed class, Unlisted error, overrun (sleeps past the timeout), overrun answered by an Unlisted error raised at the cut-off, caller cancelled during the attempt, Listed error then caller cancelled during the '
         'back-off}: these are free choices, so EVERY outcome sequence is enumerated. Also with a one-slot lax semaphore whose slot is held by somebody else (the call goes on without it after the acquisition time-out). Compared with an independent reference of the documented semantics: number and virtual start times of calls, '
         'return value / identity of the raised exception, cancellation never retried or swallowed. non-trivial = at least two attempts or a cancellation; distinct = distinct outcome sequences per configuration')
 ASSUMPTIONS = ['an overrun when retry_on is given without TimeoutError may either propagate at once (unlisted exception) or be retried (failed attempt): the statement allows both readings',
                'virtual time: the function body itself takes no time except where it sleeps']
 DISTINCT_BY_SCENARIO = True
-OUTCOMES = ['ok', 'listed', 'unlisted', 'overrun', 'cancel_attempt', 'cancel_backoff', 'slow_ok', 'overrun_unlisted']
+OUTCOMES = ['ok', 'listed', 'unlisted', 'overrun', 'cancel_attempt', 'cancel_backoff', 'slow_ok', 'overrun_unlisted', 'sublisted']
 
 
 class Listed(Exception):
@@ -27,6 +27,10 @@ class Listed(Exception):
 
 class Unlisted(Exception):
     pass
+
+
+class SubListed(Listed):
+    """a proper subclass of a listed class: listed, as isinstance() says"""
 
 
 RETRY_ON = {'none': None, 'listed': (Listed,), 'listed+timeout': (Listed, TimeoutError), 'empty': ()}
@@ -88,6 +92,11 @@ class RetryWorld:
                 return ('value', k)
             if o == 'listed':
                 ex = Listed(f'listed {k}')
+                w.raised[id(ex)] = ('listed', k)
+                w.keep.append(ex)
+                raise ex
+            if o == 'sublisted':
+                ex = SubListed(f'sub-listed {k}')
                 w.raised[id(ex)] = ('listed', k)
                 w.keep.append(ex)
                 raise ex
@@ -202,7 +211,7 @@ def reference(p, outcomes):
             return (k + 1, starts, ('returned', ('value', k)))
         if o == 'cancel_attempt':
             return (k + 1, starts, ('cancelled', None))
-        if o in ('listed', 'cancel_backoff'):
+        if o in ('listed', 'sublisted', 'cancel_backoff'):
             if last or p['retry_on'] == 'empty':  # an empty retry_on lists nothing: every exception propagates at once
                 return (k + 1, starts, ('raised', ('listed', k)))
             if o == 'cancel_backoff' and wait > 0:
